@@ -131,6 +131,11 @@ type Engine struct {
 
 	wgConn sync.WaitGroup
 
+	// stopping is set (under mux) when Stop begins; wgAccept counts the running
+	// acceptor goroutines, Stop waits for them before it closes the connections.
+	stopping bool
+	wgAccept sync.WaitGroup
+
 	// store std connections, for Windows only.
 	connsStd map[*Conn]struct{}
 
@@ -198,9 +203,17 @@ func (e *Engine) SetLTSyncRead() {
 //
 //go:norace
 func (g *Engine) Stop() {
+	g.mux.Lock()
+	g.stopping = true
+	g.mux.Unlock()
+
 	for _, l := range g.listeners {
 		l.stop()
 	}
+	// A connection that an acceptor is just adding would be missed by the loop
+	// below and then keep wgConn.Wait blocked for ever (or stay open after Stop):
+	// wait until the acceptors are gone, so that no more connections can appear.
+	g.wgAccept.Wait()
 
 	g.mux.Lock()
 	conns := g.connsStd
@@ -242,6 +255,14 @@ func (g *Engine) Stop() {
 
 	g.Wait()
 	logging.Info("NBIO[%v] stop", g.Name)
+}
+
+//go:norace
+func (g *Engine) isStopping() bool {
+	g.mux.Lock()
+	stopping := g.stopping
+	g.mux.Unlock()
+	return stopping
 }
 
 // Shutdown stops Engine gracefully with context.
